@@ -781,9 +781,8 @@ fn history(w: Workload, prop: String, git_dir: PathBuf, out: std::sync::Arc<std:
                         _ => "tx-dropped",
                     });
                     // completeness: fault-free, uncontended class only
-                    // (log-only edits never change the name->value state, so a refusal leaves the store equal to the model
-                    // either way; the property does not promise more for them)
-                    if res.phase == "prepare" && verdict.is_ok() && foreign.is_empty() && !faulted && prop == "C16" && !edits.iter().any(|e| e.log_only) {
+                    // (reflog-only edits included since 3b36b5694 made their expectations see packed refs)
+                    if res.phase == "prepare" && verdict.is_ok() && foreign.is_empty() && !faulted && prop == "C16" {
                         c.rep.violate(
                             "C16",
                             format!("refstore C16 rejected-but-model-accepts packed={packed} | {}", res.result.as_ref().err().map(|e| e.chars().take(40).collect::<String>()).unwrap_or_default()),
